@@ -501,5 +501,46 @@ pub fn pmy_stop(syslinep: &SyslineP, filter_dt_after_opt: &DateTimeLOpt, fo_prev
     (false, fo_prev)
 }
 
+// PMY-YEAR — logs without a year: the year given to the file's last message is the calendar year of the file's modification time
+// AS READ IN THE LOG'S ZONE (--tz-offset), not in UTC: around New Year the two differ and every instant of the file would be off
+// by one year (C01: merge order; C03: window).  The one statement of process_missing_year that picks the year, with chrono's
+// accessors assumed (date_naive / naive_local read the wall clock of the value's own zone, naive_utc that of UTC).
+#[verifier::external_body]
+pub struct NaiveDate { _p: u8 }
+#[verifier::external_body]
+pub struct NaiveDateTimeS { _p: u8 }
+pub uninterp spec fn local_year(dt: DateTimeL) -> int;
+pub uninterp spec fn utc_year(dt: DateTimeL) -> int;
+impl NaiveDate {
+    pub uninterp spec fn y(&self) -> int;
+    #[verifier::external_body]
+    pub fn year(&self) -> (r: i32) ensures r as int == self.y() { unimplemented!() }
+}
+impl NaiveDateTimeS {
+    pub uninterp spec fn y(&self) -> int;
+    #[verifier::external_body]
+    pub fn year(&self) -> (r: i32) ensures r as int == self.y() { unimplemented!() }
+    #[verifier::external_body]
+    pub fn date(&self) -> (r: NaiveDate) ensures r.y() == self.y() { unimplemented!() }
+}
+impl DateTimeL {
+    #[verifier::external_body]
+    pub fn date_naive(&self) -> (r: NaiveDate) ensures r.y() == local_year(*self) { unimplemented!() }
+    #[verifier::external_body]
+    pub fn naive_local(&self) -> (r: NaiveDateTimeS) ensures r.y() == local_year(*self) { unimplemented!() }
+    #[verifier::external_body]
+    pub fn naive_utc(&self) -> (r: NaiveDateTimeS) ensures r.y() == utc_year(*self) { unimplemented!() }
+    #[verifier::external_body]
+    pub fn year(&self) -> (r: i32) ensures r as int == local_year(*self) { unimplemented!() }
+}
+pub type Year = i32;
+pub fn pmy_year(dt_mtime: DateTimeL) -> (r: Year)
+    ensures r as int == local_year(dt_mtime)
+{
+//@cut slice path=src/readers/syslogprocessor.rs impl=SyslogProcessor fn=process_missing_year anchor="let year: Year" take=stmt label=PMY-YEAR
+//@end
+    year
+}
+
 } // verus!
 fn main() {}
